@@ -1178,6 +1178,8 @@ class DiscretizedSpaceElement(Tensor):
             except TypeError:
                 axis = (int(axis),)
 
+            # Normalize negative axes
+            axis = tuple(int(ax) % self.ndim for ax in axis)
             reduced_axes = [i for i in range(self.ndim) if i not in axis]
 
         # --- Evaluate ufunc --- #
